@@ -73,6 +73,7 @@ theorem timeZhiScan_gen (h mi : Int) (hh : 0 ≤ h ∧ h ≤ 23) (hm : 0 ≤ mi 
         simp only [Bool.false_eq_true, if_false]
         exact ih (i + 2) (x + 1) (by omega) (by omega) (by omega) (by omega)
 
+/-- HOUR: the branch is fixed by the two-hour slot: 23:00–00:59 → 0 (子), 01:00–02:59 → 1, …, 21:00–22:59 → 11 -/
 theorem timeZhi_eq (h mi : Int) (hh : 0 ≤ h ∧ h ≤ 23) (hm : 0 ≤ mi ∧ mi ≤ 59) : timeZhiIndexOf h mi = ((h + 1) / 2) % 12 := by
   unfold timeZhiIndexOf
   rw [timeZhiScan_gen h mi hh hm 12 1 1 (by omega) (by omega) (by omega) (by omega)]
@@ -146,7 +147,7 @@ theorem termByName_idx (ts : List Solar) (i : Nat) (hi : i < 31) :
 theorem termByName_lichun (ts : List Solar) : termByName ts "立春" = ts.getD 4 nilSolar :=
   termByName_idx ts 4 (by omega)
 
-theorem stampValid_inWidth (s : Solar) (hs : stampValid s = true) : InWidth s := by
+theorem stampValid_inWidth_pil (s : Solar) (hs : stampValid s = true) : InWidth s := by
   unfold stampValid at hs
   simp only [Bool.and_eq_true, decide_eq_true_eq] at hs
   obtain ⟨⟨hv, h0⟩, h1⟩ := hs
@@ -231,6 +232,11 @@ theorem strGe_toYmdHms (s o : Solar) (hs : InWidth s) (ho : InWidth o) :
 
 /-! ## YEAR -/
 
+/-- YEAR pillars (strongest true variant of the given `year_pillars`, which is FALSE as stated — see
+`year_pillars_counterexample`). `ly` = lunar year of the date, `s` its civil date-time, Lichun stamp L = ts[4].
+New-Year convention: (ly−4) mod 10/12. Lichun-day convention: pillar of civil year s.year from the Lichun DAY on, of
+s.year−1 before — EXCEPT when the lunar year leads the civil year (ly = s.year+1), where the code always yields the
+pillar of s.year, whatever the position relative to Lichun. Lichun-instant convention: same with the Lichun SECOND. -/
 theorem year_pillars_partial (ly : Int) (s : Solar) (ts : List Solar) (hts : termsOk s.year ts = true) (hs : stampValid s = true)
     (hly : ly = s.year - 1 ∨ ly = s.year ∨ ly = s.year + 1) :
     let r := computeYear ly s ts
@@ -241,8 +247,8 @@ theorem year_pillars_partial (ly : Int) (s : Solar) (ts : List Solar) (hts : ter
     r.2.2.1 = (Yd - 4) % 10 ∧ r.2.2.2.1 = (Yd - 4) % 12 ∧
     r.2.2.2.2.1 = (Yi - 4) % 10 ∧ r.2.2.2.2.2 = (Yi - 4) % 12 := by
   obtain ⟨hl, hval, hinc, hy4⟩ := termsOk_parts s.year ts hts
-  have hws := stampValid_inWidth s hs
-  have hwL := stampValid_inWidth _ (hval 4 (by omega))
+  have hws := stampValid_inWidth_pil s hs
+  have hwL := stampValid_inWidth_pil _ (hval 4 (by omega))
   have hne : ¬ ((ts.getD 4 nilSolar).year ≠ s.year) := fun h => h hy4
   have k8s : (s.year * 100 + s.month) * 100 + s.day = key8 s := rfl
   have k8L : ((ts.getD 4 nilSolar).year * 100 + (ts.getD 4 nilSolar).month) * 100 + (ts.getD 4 nilSolar).day
@@ -288,8 +294,8 @@ theorem year_pillars_of_lead_after (ly : Int) (s : Solar) (ts : List Solar) (hts
     r.2.2.2.2.1 = (Yi - 4) % 10 ∧ r.2.2.2.2.2 = (Yi - 4) % 12 := by
   have hp := year_pillars_partial ly s ts hts hs hly
   obtain ⟨hl, hval, hinc, hy4⟩ := termsOk_parts s.year ts hts
-  have hws := stampValid_inWidth s hs
-  have hwL := stampValid_inWidth _ (hval 4 (by omega))
+  have hws := stampValid_inWidth_pil s hs
+  have hwL := stampValid_inWidth_pil _ (hval 4 (by omega))
   simp only at hp ⊢
   by_cases hle : ly ≤ s.year
   · simp only [hle, true_and] at hp
@@ -380,11 +386,12 @@ theorem key8_mono (a b : Solar) (ha : InWidth a) (hb : InWidth b) (h : key14 a <
   unfold InWidth at ha hb
   omega
 
+/-- day scan: index = (number of Jie whose DAY is at or before the day of `s`) − 3 -/
 theorem monthScan_day (y : Int) (s : Solar) (ts : List Solar) (hts : termsOk y ts = true) (hs : stampValid s = true) :
     monthScan Solar.toYmd s.toYmd ts 16 0 none (-3) = jieCount (fun t => (t.year * 100 + t.month) * 100 + t.day) ((s.year * 100 + s.month) * 100 + s.day) ts - 3 := by
   obtain ⟨hl, hval, hinc, hy4⟩ := termsOk_parts y ts hts
-  have hws := stampValid_inWidth s hs
-  have hw : ∀ i, i < 31 → InWidth (ts.getD i nilSolar) := fun i hi => stampValid_inWidth _ (hval i hi)
+  have hws := stampValid_inWidth_pil s hs
+  have hw : ∀ i, i < 31 → InWidth (ts.getD i nilSolar) := fun i hi => stampValid_inWidth_pil _ (hval i hi)
   have h := monthScan_gen Solar.toYmd key8 s.toYmd (key8 s) ts
     (fun j hj => strLt_toYmd s _ hws (hw _ (by omega)))
     (fun j hj => strGe_toYmd s _ hws (hw _ (by omega)))
@@ -401,11 +408,12 @@ theorem monthScan_day (y : Int) (s : Solar) (ts : List Solar) (hts : termsOk y t
   rw [e, jieCount, List.range_eq_range']
   rfl
 
+/-- instant scan: index = (number of Jie whose INSTANT is at or before `s`) − 3 -/
 theorem monthScan_instant (y : Int) (s : Solar) (ts : List Solar) (hts : termsOk y ts = true) (hs : stampValid s = true) :
     monthScan Solar.toYmdHms s.toYmdHms ts 16 0 none (-3) = jieCount Solar.key s.key ts - 3 := by
   obtain ⟨hl, hval, hinc, hy4⟩ := termsOk_parts y ts hts
-  have hws := stampValid_inWidth s hs
-  have hw : ∀ i, i < 31 → InWidth (ts.getD i nilSolar) := fun i hi => stampValid_inWidth _ (hval i hi)
+  have hws := stampValid_inWidth_pil s hs
+  have hw : ∀ i, i < 31 → InWidth (ts.getD i nilSolar) := fun i hi => stampValid_inWidth_pil _ (hval i hi)
   have h := monthScan_gen Solar.toYmdHms Solar.key s.toYmdHms s.key ts
     (fun j hj => strLt_toYmdHms s _ hws (hw _ (by omega)))
     (fun j hj => strGe_toYmdHms s _ hws (hw _ (by omega)))
@@ -420,3 +428,219 @@ theorem monthScan_instant (y : Int) (s : Solar) (ts : List Solar) (hts : termsOk
   unfold jieCount
   rw [List.range_eq_range']
   omega
+
+/-- closed form of the month pillar from the scan index k−3 and the year stem g of the matching convention -/
+def monthPillarOf (k g : Int) : Int × Int :=          -- k = number of Jie passed (0..16), g = year stem of the convention
+  let index := k - 3
+  let add : Int := if index < 0 then 1 else 0
+  let offset := (((g + add) % 5 + 1) * 2) % 10
+  ((((if index < 0 then index + 10 else index) + offset) % 10), ((if index < 0 then index + 12 else index) + 2) % 12)
+
+theorem computeMonth_eq (s : Solar) (ts : List Solar) (gL gE : Int) :
+    let kd := monthScan Solar.toYmd s.toYmd ts 16 0 none (-3) + 3
+    let ki := monthScan Solar.toYmdHms s.toYmdHms ts 16 0 none (-3) + 3
+    computeMonth s ts gL gE = ((monthPillarOf kd gL).1, (monthPillarOf kd gL).2, (monthPillarOf ki gE).1, (monthPillarOf ki gE).2) := by
+  simp only [computeMonth, monthPillarOf, LunarUtil.BASE_MONTH_ZHI_INDEX, Int.add_sub_cancel]
+
+theorem monthPillar_zhi (k g : Int) (hk : 0 ≤ k ∧ k ≤ 16) : (monthPillarOf k g).2 = (k + 11) % 12 := by
+  simp only [monthPillarOf]
+  split <;> omega
+
+/-- stem of the month pillar: with the effective year stem `g + [k < 3]` it is `(k + 7 + 2·((g' mod 5) + 1)) mod 10` -/
+theorem monthPillar_gan (k g : Int) :
+    (monthPillarOf k g).1 = (k + 7 + (((g + (if k < 3 then 1 else 0)) % 5 + 1) * 2) % 10) % 10 := by
+  simp only [monthPillarOf]
+  by_cases h : k < 3
+  · have h' : k - 3 < 0 := by omega
+    simp only [h, h', if_true]; omega
+  · have h' : ¬ (k - 3 < 0) := by omega
+    simp only [h, h', if_false]; omega
+
+/-- one step per Jie: for 0 ≤ k < 16, with the Lichun-based year stem g(k) = gPrev for k ≤ 2 and (gPrev+1) mod 10 for k ≥ 3 -/
+theorem monthPillar_step (k gPrev : Int) (hk : 0 ≤ k ∧ k < 15) (hg : 0 ≤ gPrev ∧ gPrev ≤ 9) :
+    let g := fun (k : Int) => if k ≤ 2 then gPrev else (gPrev + 1) % 10
+    cycleIndex (monthPillarOf (k + 1) (g (k + 1))).1 (monthPillarOf (k + 1) (g (k + 1))).2 =
+      (cycleIndex (monthPillarOf k (g k)).1 (monthPillarOf k (g k)).2 + 1) % 60 := by
+  simp only [monthPillar_gan, monthPillar_zhi k _ ⟨hk.1, by omega⟩, monthPillar_zhi (k + 1) _ ⟨by omega, by omega⟩, cycleIndex]
+  by_cases h2 : k ≤ 1
+  · have a1 : k + 1 ≤ 2 := by omega
+    have a2 : k ≤ 2 := by omega
+    have a3 : k + 1 < 3 := by omega
+    have a4 : k < 3 := by omega
+    simp only [a1, a2, a3, a4, if_true]
+    omega
+  · by_cases h3 : k = 2
+    · subst h3
+      simp only [show ¬ ((2 : Int) + 1 ≤ 2) by omega, show (2 : Int) ≤ 2 by omega, show ¬ ((2 : Int) + 1 < 3) by omega,
+        show (2 : Int) < 3 by omega, if_true, if_false]
+      omega
+    · have a1 : ¬ (k + 1 ≤ 2) := by omega
+      have a2 : ¬ (k ≤ 2) := by omega
+      have a3 : ¬ (k + 1 < 3) := by omega
+      have a4 : ¬ (k < 3) := by omega
+      simp only [a1, a2, a3, a4, if_false]
+      omega
+
+/-- five-tigers rule: in the month that starts at Lichun (k = 3) the stem is (2·(g mod 5) + 2) mod 10 -/
+theorem five_tigers (g : Int) (hg : 0 ≤ g ∧ g ≤ 9) : (monthPillarOf 3 g).1 = (2 * (g % 5) + 2) % 10 ∧ (monthPillarOf 3 g).2 = 2 := by
+  simp only [monthPillarOf, show ¬ ((3 : Int) - 3 < 0) by omega, if_false]
+  omega
+
+/-! ## validity of every pillar -/
+
+/-- one of the 60 stem-branch pairs -/
+def pillarOk (g z : Int) : Prop := 0 ≤ g ∧ g ≤ 9 ∧ 0 ≤ z ∧ z ≤ 11 ∧ g % 2 = z % 2
+
+theorem pillarOk_mod (a : Int) : pillarOk (a % 10) (a % 12) := by
+  unfold pillarOk; omega
+
+theorem monthPillarOf_ok (k g : Int) : pillarOk (monthPillarOf k g).1 (monthPillarOf k g).2 := by
+  simp only [monthPillarOf, pillarOk]
+  split <;> omega
+
+theorem computeDay_ok (s : Solar) (h mi : Int) :
+    let r := computeDay s h mi
+    pillarOk r.1 r.2.1 ∧ pillarOk r.2.2.1 r.2.2.2.1 ∧ pillarOk r.2.2.2.2.1 r.2.2.2.2.2 := by
+  simp only [computeDay]
+  generalize (strGe (fmtHm h mi) (fmtHm 23 0) && strLe (fmtHm h mi) (fmtHm 23 59)) = b
+  refine ⟨pillarOk_mod _, ?_, pillarOk_mod _⟩
+  cases b
+  · simp only [Bool.false_eq_true, if_false]; exact pillarOk_mod _
+  · simp only [if_true, pillarOk]
+    split <;> split <;> omega
+
+/-- every pillar is one of the 60 valid stem-branch pairs: ranges and equal parity -/
+theorem pillars_valid (ly lm ld h mi sec : Int) (s : Solar) (ya : YearAstro) (hts : termsOk s.year ya.terms = true)
+    (hs : stampValid s = true) (hh : 0 ≤ h ∧ h ≤ 23) (hm : 0 ≤ mi ∧ mi ≤ 59) (hly : ly = s.year - 1 ∨ ly = s.year ∨ ly = s.year + 1) :
+    let l := computeAll ly lm ld h mi sec s ya
+    let ok := fun (g z : Int) => 0 ≤ g ∧ g ≤ 9 ∧ 0 ≤ z ∧ z ≤ 11 ∧ g % 2 = z % 2
+    ok l.yearGanIndex l.yearZhiIndex ∧ ok l.yearGanIndexByLiChun l.yearZhiIndexByLiChun ∧ ok l.yearGanIndexExact l.yearZhiIndexExact ∧
+    ok l.monthGanIndex l.monthZhiIndex ∧ ok l.monthGanIndexExact l.monthZhiIndexExact ∧
+    ok l.dayGanIndex l.dayZhiIndex ∧ ok l.dayGanIndexExact l.dayZhiIndexExact ∧ ok l.dayGanIndexExact2 l.dayZhiIndexExact2 ∧
+    ok l.timeGanIndex l.timeZhiIndex := by
+  have hy := year_pillars_partial ly s ya.terms hts hs hly
+  have hd := computeDay_ok s h mi
+  have hmo := computeMonth_eq s ya.terms (computeYear ly s ya.terms).2.2.1 (computeYear ly s ya.terms).2.2.2.2.1
+  simp only at hy hd hmo
+  obtain ⟨y1, y2, y3, y4, y5, y6⟩ := hy
+  obtain ⟨d1, d2, d3⟩ := hd
+  simp only [computeAll, hmo, timeZhi_eq h mi hh hm]
+  rw [y1, y2, y3, y4, y5, y6]
+  refine ⟨pillarOk_mod _, pillarOk_mod _, pillarOk_mod _, monthPillarOf_ok _ _, monthPillarOf_ok _ _, d1, d2, d3, ?_⟩
+  omega
+
+/-! ## consistency of the month scan with the Lichun-based year stem -/
+
+/-- with a non-decreasing Jie table, fewer than three Jie have passed iff `now` is before Lichun (entry 4) -/
+theorem jieCount_le2_iff (K : Solar → Int) (now : Int) (ts : List Solar)
+    (hmono : ∀ j, j + 1 < 16 → K (ts.getD (2 * j) nilSolar) ≤ K (ts.getD (2 * (j + 1)) nilSolar)) :
+    jieCount K now ts ≤ 2 ↔ now < K (ts.getD 4 nilSolar) := by
+  have m : ∀ j k, j ≤ k → k < 16 → K (ts.getD (2 * j) nilSolar) ≤ K (ts.getD (2 * k) nilSolar) :=
+    mono_of_step (fun j => K (ts.getD (2 * j) nilSolar)) 16 hmono
+  unfold jieCount
+  rw [List.range_eq_range', List.range'_succ, List.range'_succ, List.range'_succ]
+  by_cases h : now < K (ts.getD 4 nilSolar)
+  · have hnil : (List.range' (0 + 1 + 1 + 1) 13).filter (fun j => decide (K (ts.getD (2 * j) nilSolar) ≤ now)) = [] := by
+      rw [List.filter_eq_nil_iff]
+      intro k hk
+      rw [List.mem_range'_1] at hk
+      have := m 2 k (by omega) (by omega)
+      simp only [decide_eq_true_eq]
+      simp only [Nat.reduceMul] at this
+      omega
+    have h2 : ¬ (K (ts.getD (2 * (0 + 1 + 1)) nilSolar) ≤ now) := by
+      simp only [Nat.reduceAdd, Nat.reduceMul]; omega
+    simp only [List.filter_cons, hnil, h2, decide_false, Bool.false_eq_true, if_false, h, iff_true]
+    split <;> split <;> simp only [List.length_cons, List.length_nil] <;> omega
+  · have h0 := m 0 2 (by omega) (by omega)
+    have h1 := m 1 2 (by omega) (by omega)
+    simp only [Nat.reduceMul] at h0 h1
+    have e0 : K (ts.getD (2 * 0) nilSolar) ≤ now := by simp only [Nat.reduceMul]; omega
+    have e1 : K (ts.getD (2 * (0 + 1)) nilSolar) ≤ now := by simp only [Nat.reduceAdd, Nat.reduceMul]; omega
+    have e2 : K (ts.getD (2 * (0 + 1 + 1)) nilSolar) ≤ now := by simp only [Nat.reduceAdd, Nat.reduceMul]; omega
+    simp only [List.filter_cons, e0, e1, e2, decide_true, if_true, List.length_cons, h, iff_false]
+    omega
+
+/-- the year stems that `computeAll` hands to the month pillar are exactly the Lichun-based stems that
+`monthPillar_step` assumes: previous-year stem while fewer than three Jie have passed (k ≤ 2), the next stem
+from Lichun (k ≥ 3) on — for the day scan with the Lichun-day stem, for the instant scan with the Lichun-instant stem.
+(Needs the same side condition as `year_pillars_of_lead_after`.) -/
+theorem month_year_consistent (ly : Int) (s : Solar) (ts : List Solar) (hts : termsOk s.year ts = true) (hs : stampValid s = true)
+    (hly : ly = s.year - 1 ∨ ly = s.year ∨ ly = s.year + 1)
+    (hlead : ly = s.year + 1 → (ts.getD 4 nilSolar).key ≤ s.key) :
+    let r := computeYear ly s ts
+    let kd := jieCount (fun t => (t.year * 100 + t.month) * 100 + t.day) ((s.year * 100 + s.month) * 100 + s.day) ts
+    let ki := jieCount Solar.key s.key ts
+    let gPrev := (s.year - 5) % 10
+    r.2.2.1 = (if kd ≤ 2 then gPrev else (gPrev + 1) % 10) ∧
+    r.2.2.2.2.1 = (if ki ≤ 2 then gPrev else (gPrev + 1) % 10) := by
+  have hy := year_pillars_of_lead_after ly s ts hts hs hly hlead
+  obtain ⟨hl, hval, hinc, hy4⟩ := termsOk_parts s.year ts hts
+  have hw : ∀ i, i < 31 → InWidth (ts.getD i nilSolar) := fun i hi => stampValid_inWidth_pil _ (hval i hi)
+  have hd := jieCount_le2_iff key8 (key8 s) ts (fun j hj => by
+      have h1 := hinc (2 * j) (by omega)
+      have h2 := hinc (2 * j + 1) (by omega)
+      have e : 2 * (j + 1) = 2 * j + 1 + 1 := by omega
+      rw [e]
+      exact Int.le_trans (key8_mono _ _ (hw _ (by omega)) (hw _ (by omega)) h1)
+        (key8_mono _ _ (hw _ (by omega)) (hw _ (by omega)) h2))
+  have hi := jieCount_le2_iff Solar.key s.key ts (fun j hj => by
+      have h1 := hinc (2 * j) (by omega)
+      have h2 := hinc (2 * j + 1) (by omega)
+      have e : 2 * (j + 1) = 2 * j + 1 + 1 := by omega
+      rw [e]
+      omega)
+  simp only at hy ⊢
+  obtain ⟨_, _, y3, _, y5, _⟩ := hy
+  rw [y3, y5]
+  have hd' : jieCount (fun t => (t.year * 100 + t.month) * 100 + t.day) ((s.year * 100 + s.month) * 100 + s.day) ts ≤ 2 ↔
+      (s.year * 100 + s.month) * 100 + s.day <
+        ((ts.getD 4 nilSolar).year * 100 + (ts.getD 4 nilSolar).month) * 100 + (ts.getD 4 nilSolar).day := hd
+  constructor
+  · by_cases c : (s.year * 100 + s.month) * 100 + s.day <
+        ((ts.getD 4 nilSolar).year * 100 + (ts.getD 4 nilSolar).month) * 100 + (ts.getD 4 nilSolar).day
+    · simp only [c, hd'.mpr c, if_true]; omega
+    · have c' := fun h => c (hd'.mp h)
+      simp only [c, c', if_false]; omega
+  · by_cases c : s.key < (ts.getD 4 nilSolar).key
+    · simp only [c, hi.mpr c, if_true]; omega
+    · have c' := fun h => c (hi.mp h)
+      simp only [c, c', if_false]; omega
+
+/-! ## the statement `year_pillars` as given is false when `ly = s.year + 1` and `s` is before Lichun -/
+
+def terms2024 : List Solar :=
+  [⟨2023, 12, 7, 17, 32, 44⟩, ⟨2023, 12, 22, 11, 27, 9⟩, ⟨2024, 1, 6, 4, 49, 8⟩, ⟨2024, 1, 20, 22, 7, 8⟩, ⟨2024, 2, 4, 16, 26, 53⟩, ⟨2024, 2, 19, 12, 12, 58⟩, ⟨2024, 3, 5, 10, 22, 31⟩, ⟨2024, 3, 20, 11, 6, 11⟩, ⟨2024, 4, 4, 15, 2, 3⟩, ⟨2024, 4, 19, 21, 59, 32⟩, ⟨2024, 5, 5, 8, 9, 51⟩, ⟨2024, 5, 20, 20, 59, 17⟩, ⟨2024, 6, 5, 12, 9, 40⟩, ⟨2024, 6, 21, 4, 50, 46⟩, ⟨2024, 7, 6, 22, 19, 49⟩, ⟨2024, 7, 22, 15, 44, 11⟩, ⟨2024, 8, 7, 8, 9, 1⟩, ⟨2024, 8, 22, 22, 54, 48⟩, ⟨2024, 9, 7, 11, 11, 5⟩, ⟨2024, 9, 22, 20, 43, 27⟩, ⟨2024, 10, 8, 2, 59, 42⟩, ⟨2024, 10, 23, 6, 14, 32⟩, ⟨2024, 11, 7, 6, 19, 49⟩, ⟨2024, 11, 22, 3, 56, 16⟩, ⟨2024, 12, 6, 23, 16, 47⟩, ⟨2024, 12, 21, 17, 20, 19⟩, ⟨2025, 1, 5, 10, 32, 31⟩, ⟨2025, 1, 20, 3, 59, 52⟩, ⟨2025, 2, 3, 22, 10, 13⟩, ⟨2025, 2, 18, 18, 6, 18⟩, ⟨2025, 3, 5, 16, 7, 2⟩]
+
+/-- counterexample to `year_pillars` as stated: ly = 2025, s = 2024-01-01 00:00:00, the term table of 2024.
+All hypotheses hold; the model gives Lichun-day stem 0 (year 2024), the stated right-hand side is 9 (year 2023). -/
+theorem year_pillars_counterexample :
+    let s : Solar := ⟨2024, 1, 1, 0, 0, 0⟩
+    let ts := terms2024
+    let ly : Int := 2025
+    termsOk s.year ts = true ∧ stampValid s = true ∧ ly = s.year + 1 ∧
+    (computeYear ly s ts).2.2.1 = 0 ∧
+    (let L := ts.getD 4 nilSolar
+     let Yd : Int := if (s.year * 100 + s.month) * 100 + s.day < (L.year * 100 + L.month) * 100 + L.day then s.year - 1 else s.year
+     (Yd - 4) % 10 = 9) := by
+  decide +kernel
+
+#print axioms timeZhi_eq
+#print axioms computeDay_plain
+#print axioms cycleIndex_spec
+#print axioms day_cycle_succ
+#print axioms computeDay_exact
+#print axioms time_pillar
+#print axioms year_pillars_partial
+#print axioms year_pillars_of_lead_after
+#print axioms year_pillars_counterexample
+#print axioms monthScan_day
+#print axioms monthScan_instant
+#print axioms computeMonth_eq
+#print axioms monthPillar_zhi
+#print axioms monthPillar_step
+#print axioms five_tigers
+#print axioms month_year_consistent
+#print axioms pillars_valid
+
+end Model
